@@ -20,18 +20,21 @@ import math
 
 from . import irv
 
-TRUTHY = (True, 1, "x", 5)
+TRUTHY = (True, 1, "x", 5, float("nan"))   # Python truthiness decides: NaN is a mark
 FALSY = (False, 0, "", None)
 TESTS_FOR = {
     "CARD_COMPARISON": [("alpha_mart", "optimal_comparison", None, {}), ("alpha_mart", "shrink_trunc", None, {"d": 10, "f": 0}),
                         ("alpha_mart", "shrink_trunc", None, {"d": 100, "f": 0.25, "c": 0.25}),
                         ("betting_mart", None, "agrapa", {}), ("betting_mart", None, "fixed_bet", {"lam": 0.5}),
                         ("alpha_mart", "fixed_alternative_mean", None, {}), ("kaplan_kolmogorov", None, None, {}),
-                        ("wald_sprt", None, None, {"eta": 0.75})],
+                        ("wald_sprt", None, None, {"eta": 0.75}),
+                        # eta taken from a reported margin (with the default eta = u(1-eps) the first estimates do not feel f)
+                        ("alpha_mart", "shrink_trunc", None, {"d": 20, "f": 0.5, "eta": 0.625, "c": 0.25})],
     "POLLING": [("alpha_mart", "shrink_trunc", None, {"d": 10, "f": 0}), ("betting_mart", None, "agrapa", {}),
                 ("alpha_mart", "fixed_alternative_mean", None, {"eta": 0.625}), ("kaplan_kolmogorov", None, None, {}),
                 ("kaplan_wald", None, None, {}), ("kaplan_markov", None, None, {}),
-                ("betting_mart", None, "fixed_bet", {"lam": 0.5})],
+                ("betting_mart", None, "fixed_bet", {"lam": 0.5}),
+                ("alpha_mart", "shrink_trunc", None, {"d": 20, "f": 0.5, "eta": 0.625, "c": 0.25})],
 }
 TESTS_FOR["ONEAUDIT"] = TESTS_FOR["CARD_COMPARISON"]
 
